@@ -451,7 +451,7 @@ func (c *checker) oneRun(r runSpec, pool *solver.Pool, dump string) int {
 		switch vc.Kind {
 		case "assert", "precond":
 			q = term.And(vc.Guard, term.Not(vc.Cond))
-		case "reach":
+		case "reach", "must":
 			q = term.And(vc.Guard, vc.Cond)
 		case "panic":
 			q = vc.Guard
@@ -466,7 +466,47 @@ func (c *checker) oneRun(r runSpec, pool *solver.Pool, dump string) int {
 	}
 	var raceJob *solver.Job
 	var raceDesc string
+	var dupJobs []*solver.Job
 	if r.H.Func == "H_C19_masks" {
+		// "no duplicate within a run": every ID must come from the one shared generator stream. A generator that is
+		// created during the call and seeded only from the clock hands two calls in the same clock tick the same
+		// draws: the path to such a draw being feasible is the violation (confirmed natively by a duplicate hunt).
+		created := map[string]bool{}
+		for _, e := range ex.Events {
+			if e.Kind == "newgen" {
+				created[e.Obj] = true
+			}
+		}
+		for _, e := range ex.Events {
+			if e.Kind != "draw" || !created[e.Obj] {
+				continue
+			}
+			clockOnly := e.Seed != nil
+			if e.Seed != nil {
+				for _, v := range term.Vars(e.Seed) {
+					if !strings.HasPrefix(v.Name, "$now_") {
+						clockOnly = false
+					}
+				}
+			}
+			if !clockOnly {
+				c.inconcl = append(c.inconcl, fmt.Sprintf("RandomID draws from a generator created during the call (%s) whose seed is not modelled: uniqueness of IDs undecided", e.Site))
+				continue
+			}
+			dupJobs = append(dupJobs, &solver.Job{Label: "private-clock-seeded-generator@" + e.Site, Asserts: ex.WithDefs(e.Guard), Want: ex.Inputs})
+		}
+		jobs = append(jobs, dupJobs...)
+	}
+	hasTry := false
+	for _, e := range ex.Events {
+		if e.Kind == "trylock" {
+			hasTry = true
+		}
+	}
+	if r.H.Func == "H_C19_masks" && hasTry {
+		c.inconcl = append(c.inconcl, "RandomID uses Mutex.TryLock: its events fork, which the linear two-thread schedule encoding does not cover (lock discipline undecided)")
+	}
+	if r.H.Func == "H_C19_masks" && !hasTry {
 		q, vars, desc := raceQuery(ex.Events)
 		raceDesc = desc
 		raceJob = &solver.Job{Label: "lock-discipline", Asserts: []*term.Term{q}, Want: vars}
@@ -485,6 +525,19 @@ func (c *checker) oneRun(r runSpec, pool *solver.Pool, dump string) int {
 		}
 	}
 	pool.Run(jobs)
+	dupSeen := false
+	for _, dj := range dupJobs {
+		c.results = append(c.results, vcResult{Run: r.String(), Label: dj.Label, Kind: "assert", Verdict: dj.Out.Res.String(), Solver: dj.Out.Solver, Secs: dj.Out.Secs})
+		switch dj.Out.Res {
+		case solver.Sat:
+			if !dupSeen {
+				dupSeen = true
+				c.duplicateViolation(dj.Label, dj.Out.Model)
+			}
+		case solver.Unknown:
+			c.inconcl = append(c.inconcl, "reachability of "+dj.Label+" undecided: "+dj.Out.Note)
+		}
+	}
 	if raceJob != nil {
 		res := vcResult{Run: r.String(), Label: "lock-discipline(2 threads x 1 call, all interleavings)", Kind: "assert", Verdict: raceJob.Out.Res.String(), Solver: raceJob.Out.Solver, Secs: raceJob.Out.Secs, Note: "events: " + raceDesc}
 		c.results = append(c.results, res)
@@ -499,7 +552,7 @@ func (c *checker) oneRun(r runSpec, pool *solver.Pool, dump string) int {
 	// second round: violations that may be known findings
 	var jobs2 []*solver.Job
 	for _, p := range pend {
-		if p.vc.Kind == "reach" || p.vc.Kind == "precond" || p.job.Out.Res != solver.Sat || len(activeKnown) == 0 {
+		if p.vc.Kind == "reach" || p.vc.Kind == "must" || p.vc.Kind == "precond" || p.job.Out.Res != solver.Sat || len(activeKnown) == 0 {
 			continue
 		}
 		q := p.job.Asserts[0]
@@ -525,10 +578,50 @@ func (c *checker) oneRun(r runSpec, pool *solver.Pool, dump string) int {
 			}
 		}
 	}
+	// "must" witnesses: per run and label, some state has to reach it
+	mustState := map[string]string{}
+	var mustOrder []string
+	var mustVC = map[string]*ssaexec.VC{}
+	for _, p := range pend {
+		if p.vc.Kind != "must" {
+			continue
+		}
+		l := p.vc.Label
+		if _, ok := mustState[l]; !ok {
+			mustState[l] = "unsat"
+			mustOrder = append(mustOrder, l)
+			mustVC[l] = p.vc
+		}
+		switch p.job.Out.Res {
+		case solver.Sat:
+			mustState[l] = "sat"
+		case solver.Unknown:
+			if mustState[l] != "sat" {
+				mustState[l] = "unknown"
+			}
+		}
+	}
+	for _, l := range mustOrder {
+		switch mustState[l] {
+		case "unknown":
+			c.inconcl = append(c.inconcl, fmt.Sprintf("%s: required witness %q undecided", r, l))
+		case "unsat":
+			c.mustViolation(r, mustVC[l], ex.Inputs)
+		}
+	}
 	for _, p := range pend {
 		a := p.job.Out
 		res := vcResult{Run: r.String(), Label: p.vc.Label, Kind: p.vc.Kind, Verdict: a.Res.String(), Solver: a.Solver, Secs: a.Secs, Note: a.Note}
 		switch p.vc.Kind {
+		case "must":
+			switch a.Res {
+			case solver.Sat:
+				nSat++
+			case solver.Unsat:
+				nUnsat++
+			default:
+				nUnk++
+			}
 		case "reach":
 			switch a.Res {
 			case solver.Sat:
@@ -676,6 +769,107 @@ func (c *checker) handleViolation(r runSpec, vc *ssaexec.VC, model term.Model, d
 	return false
 }
 
+// mustViolation: the solver showed that no input of the run reaches a witness the property requires (for example
+// "this bit of a random ID can be 1"). There is no counterexample vector for a universal statement; the native
+// confirmation runs the harness on 20000 pseudo-random input vectors and requires that none reaches the label.
+func (c *checker) mustViolation(r runSpec, vc *ssaexec.VC, inputs []*term.Term) {
+	vec := map[string]uint64{}
+	for _, in := range inputs {
+		if in.Op == term.OVar && !strings.HasPrefix(in.Name, "$") {
+			vec[in.Name] = 0
+		}
+	}
+	rf := &replayFile{Property: c.prop, Pkg: r.H.Pkg, Func: r.H.Func, Args: r.Args, Label: vc.Label, Kind: "must", Site: vc.Site, Vector: vec,
+		Readable: map[string]string{"claim": "no input reaches this witness (solver: unsat); replay = 20000 pseudo-random input vectors, none may reach it"}}
+	dir := filepath.Join(c.verif, "replays", c.prop)
+	os.MkdirAll(dir, 0o755)
+	path := filepath.Join(dir, sanitize(r.String()+"_"+vc.Label)+".json")
+	data, _ := json.MarshalIndent(rf, "", " ")
+	os.WriteFile(path, data, 0o644)
+	c.replays++
+	ok, out := runReplay(c.repo, c.verif, rf)
+	if ok {
+		c.violations = append(c.violations, fmt.Sprintf("VIOLATION property=%s replay=%s", c.prop, path))
+		fmt.Printf("  required witness %s/%s is unreachable (solver) and was not reached natively in 20000 random vectors\n", r, vc.Label)
+	} else {
+		c.mismatch = append(c.mismatch, fmt.Sprintf("%s: witness %q unreachable for the solver but reached natively: %s", r, vc.Label, lastLines(out, 4)))
+	}
+}
+
+// duplicateViolation: a feasible path draws the ID from a generator seeded by the clock inside the call. The
+// native confirmation hunts for duplicate IDs among concurrent callers of the real build.
+func (c *checker) duplicateViolation(label string, model term.Model) {
+	dir := filepath.Join(c.verif, "replays", c.prop)
+	os.MkdirAll(dir, 0o755)
+	path := filepath.Join(dir, "duplicate-ids.json")
+	data, _ := json.MarshalIndent(map[string]interface{}{"property": c.prop, "kind": "duplicates", "label": label, "path_witness": modelSample(model),
+		"replay": "go test: 64 goroutines x 20000 calls of uu.RandomID, up to 12 rounds, any ID seen twice"}, "", " ")
+	os.WriteFile(path, data, 0o644)
+	c.replays++
+	ok, out := runDuplicateReplay(c.repo)
+	if ok {
+		c.violations = append(c.violations, fmt.Sprintf("VIOLATION property=%s replay=%s", c.prop, path))
+		fmt.Printf("  %s is reachable (solver) and concurrent callers of the real build produced a duplicate ID\n", label)
+	} else {
+		c.mismatch = append(c.mismatch, "a clock-seeded private generator is reachable in RandomID but the native duplicate hunt found none: "+lastLines(out, 4))
+	}
+}
+
+func runDuplicateReplay(repo string) (bool, string) {
+	tmp, err := os.MkdirTemp("", "symgo-dup-")
+	if err != nil {
+		return false, err.Error()
+	}
+	defer os.RemoveAll(tmp)
+	test := `package uu
+
+import (
+	"sync"
+	"testing"
+)
+
+func TestVerifDuplicates(t *testing.T) {
+	for round := 0; round < 12; round++ {
+		const G, N = 64, 20000
+		out := make([][]ID, G)
+		var wg sync.WaitGroup
+		for g := 0; g < G; g++ {
+			wg.Add(1)
+			go func(g int) {
+				defer wg.Done()
+				ids := make([]ID, N)
+				for i := range ids {
+					ids[i] = RandomID()
+				}
+				out[g] = ids
+			}(g)
+		}
+		wg.Wait()
+		seen := make(map[ID]struct{}, G*N)
+		for _, ids := range out {
+			for _, id := range ids {
+				if _, dup := seen[id]; dup {
+					t.Fatalf("DUPLICATE-ID %v in round %d", id, round)
+				}
+				seen[id] = struct{}{}
+			}
+		}
+	}
+}
+`
+	f := filepath.Join(tmp, "dup_test.go")
+	os.WriteFile(f, []byte(test), 0o644)
+	oj, _ := json.Marshal(map[string]interface{}{"Replace": map[string]string{filepath.Join(repo, "uu", "zz_verif_dup_test.go"): f}})
+	ovPath := filepath.Join(tmp, "overlay.json")
+	os.WriteFile(ovPath, oj, 0o644)
+	cmd := exec.Command("go", "test", "-vet=off", "-count=1", "-run", "^TestVerifDuplicates$", "-overlay", ovPath, "./uu")
+	cmd.Dir = repo
+	cmd.Env = append(os.Environ(), "GOFLAGS=-mod=mod", "GOPROXY=off", "GOSUMDB=off", "GOTOOLCHAIN=local")
+	outB, _ := cmd.CombinedOutput()
+	out := string(outB)
+	return strings.Contains(out, "DUPLICATE-ID"), out
+}
+
 // raceViolation confirms a solver-found racy schedule with the race detector on the real build.
 func (c *checker) raceViolation(r runSpec, model term.Model, desc string) {
 	dir := filepath.Join(c.verif, "replays", c.prop)
@@ -769,21 +963,35 @@ func runReplay(repo, verif string, rf *replayFile) (bool, string) {
 			}
 		}
 	}
-	fmt.Fprintf(&sb, "package %s\n\nimport (\n\t\"fmt\"\n\t\"testing\"\n)\n\n", pkgName)
-	fmt.Fprintf(&sb, "func TestVerifReplay(t *testing.T) {\n\tvVec = map[string]uint64{\n")
-	keys := make([]string, 0, len(rf.Vector))
-	for k := range rf.Vector {
-		keys = append(keys, k)
+	if rf.Kind == "must" {
+		names := make([]string, 0, len(rf.Vector))
+		for k := range rf.Vector {
+			names = append(names, strconv.Quote(k))
+		}
+		sort.Strings(names)
+		margs := make([]string, len(rf.Args))
+		for i, a := range rf.Args {
+			margs[i] = strconv.Itoa(a)
+		}
+		fmt.Fprintf(&sb, "package %s\n\nimport (\n\t\"fmt\"\n\t\"math/rand\"\n\t\"testing\"\n)\n\n", pkgName)
+		fmt.Fprintf(&sb, "func TestVerifReplay(t *testing.T) {\n\trng := rand.New(rand.NewSource(1))\n\tnames := []string{%s}\n\treached := 0\n\tfor i := 0; i < 20000; i++ {\n\t\tvVec = map[string]uint64{}\n\t\tfor _, n := range names {\n\t\t\tvVec[n] = rng.Uint64()\n\t\t}\n\t\tvReached, vFailed, vAssumeFail = nil, nil, false\n\t\tfunc() {\n\t\t\tdefer func() { recover() }()\n\t\t\t%s(%s)\n\t\t}()\n\t\tfor _, l := range vReached {\n\t\t\tif l == %q {\n\t\t\t\treached++\n\t\t\t\tbreak\n\t\t\t}\n\t\t}\n\t}\n\tfmt.Printf(\"VREPLAY must=%%q reached=%%d of 20000\\n\", %q, reached)\n}\n", strings.Join(names, ", "), rf.Func, strings.Join(margs, ", "), rf.Label, rf.Label)
+	} else {
+		fmt.Fprintf(&sb, "package %s\n\nimport (\n\t\"fmt\"\n\t\"testing\"\n)\n\n", pkgName)
+		fmt.Fprintf(&sb, "func TestVerifReplay(t *testing.T) {\n\tvVec = map[string]uint64{\n")
+		keys := make([]string, 0, len(rf.Vector))
+		for k := range rf.Vector {
+			keys = append(keys, k)
+		}
+		sort.Strings(keys)
+		for _, k := range keys {
+			fmt.Fprintf(&sb, "\t\t%q: %#x,\n", k, rf.Vector[k])
+		}
+		args := make([]string, len(rf.Args))
+		for i, a := range rf.Args {
+			args[i] = strconv.Itoa(a)
+		}
+		fmt.Fprintf(&sb, "\t}\n\tdefer func() {\n\t\tr := recover()\n\t\tif _, ok := r.(vAssumeViolated); ok {\n\t\t\tr = nil\n\t\t}\n\t\tfmt.Printf(\"VREPLAY failed=%%q known=%%q assumeFail=%%v panic=%%v\\n\", vFailed, vKnownHit, vAssumeFail, r)\n\t}()\n\t%s(%s)\n}\n", rf.Func, strings.Join(args, ", "))
 	}
-	sort.Strings(keys)
-	for _, k := range keys {
-		fmt.Fprintf(&sb, "\t\t%q: %#x,\n", k, rf.Vector[k])
-	}
-	args := make([]string, len(rf.Args))
-	for i, a := range rf.Args {
-		args[i] = strconv.Itoa(a)
-	}
-	fmt.Fprintf(&sb, "\t}\n\tdefer func() {\n\t\tr := recover()\n\t\tif _, ok := r.(vAssumeViolated); ok {\n\t\t\tr = nil\n\t\t}\n\t\tfmt.Printf(\"VREPLAY failed=%%q known=%%q assumeFail=%%v panic=%%v\\n\", vFailed, vKnownHit, vAssumeFail, r)\n\t}()\n\t%s(%s)\n}\n", rf.Func, strings.Join(args, ", "))
 	ov[filepath.Join(repo, rf.Pkg, "zz_verif_replay_test.go")] = []byte(sb.String())
 	// materialise overlay
 	repl := map[string]string{}
@@ -807,6 +1015,8 @@ func runReplay(repo, verif string, rf *replayFile) (bool, string) {
 			continue
 		}
 		switch rf.Kind {
+		case "must":
+			return strings.Contains(line, "reached=0 of"), line
 		case "panic":
 			if strings.Contains(line, "assumeFail=true") {
 				return false, line
@@ -842,6 +1052,16 @@ func cmdReplay(args []string) int {
 	if err := json.Unmarshal(data, &rf); err != nil {
 		fmt.Println(err)
 		return 2
+	}
+	if rf.Kind == "duplicates" {
+		ok, out := runDuplicateReplay(*repo)
+		fmt.Println(lastLines(out, 12))
+		if ok {
+			fmt.Printf("VIOLATION property=%s replay=%s\n", rf.Property, fs.Arg(0))
+			return 1
+		}
+		fmt.Println("not reproduced")
+		return 0
 	}
 	if rf.Kind == "race" {
 		ok, out := runRaceReplay(*repo)
